@@ -45,6 +45,8 @@ def run_contract(contract: dict, inputs: dict, fn=None):
         pass
     args = [inputs[n] for n in order if n in inputs and n != 'cls' and n not in kwonly]
     kwargs = {n: inputs[n] for n in order if n in inputs and n in kwonly}
+    if 'source' in kwonly and 'source' in inputs:
+        kwargs['source'] = inputs['source']
     failed = []
     raised = None
     b = None
